@@ -168,11 +168,11 @@ func gen(r *hx.Rand, n int, tier string, emit func(string), st *hx.Stats) {
 		case k < 970:
 			st.Inc("win")
 			// mostly the pipeline's discipline (one consumer); sometimes the general container claim
-			nR := pick(c, 1, 1, 1, 1, 2, 3)
+			nR := pick(c, 1, 1, 1, 1, 1, 1, 1, 1, 1, 1, 1, 2, 3)
 			emit(fmt.Sprintf("win %d %d %d", pick(c, 2, 4, 8), nR, 1+c.Intn(3)))
 		default:
 			st.Inc("winS")
-			emit(fmt.Sprintf("winS %d %d %d", pick(c, 2, 4), pick(c, 1, 1, 1, 2, 3), 1+c.Intn(2)))
+			emit(fmt.Sprintf("winS %d %d %d", pick(c, 2, 4), pick(c, 1, 1, 1, 1, 1, 1, 1, 1, 1, 1, 1, 2, 3), 1+c.Intn(2)))
 		}
 	}
 }
@@ -279,24 +279,50 @@ var poisoned atomic.Bool
 // spinning, so every remaining case of this run is skipped.
 var poisonedAll atomic.Bool
 
-// guarded runs a scripted case with a watchdog.
-func guarded(f func() string) string {
+// guarded runs one case with a watchdog (a stuck case must not stop the run, and the Go runtime's
+// global deadlock detector must not kill the process).
+func guarded(scripted bool, f func() string) string {
 	res := make(chan string, 1)
 	go func() {
 		defer func() {
 			if p := recover(); p != nil {
-				res <- "PANIC " + strings.ReplaceAll(fmt.Sprint(p), "\n", " ")
+				res <- "PANIC " + strings.ReplaceAll(strings.ReplaceAll(fmt.Sprint(p), "\n", " "), "\t", " ")
 			}
 		}()
 		res <- f()
 	}()
+	limit := 15 * time.Second
+	if scripted {
+		limit = 5 * time.Second
+	}
 	select {
 	case r := <-res:
 		return r
-	case <-time.After(5 * time.Second):
-		poisonedAll.Store(true)
-		return "TIMEOUT a scripted operation did not return (spinning or blocked with a cancelled context)"
+	case <-time.After(limit):
+		if scripted {
+			poisonedAll.Store(true)
+			return "TIMEOUT a scripted operation did not return (spinning or blocked with a cancelled context)"
+		}
+		poisoned.Store(true)
+		return "TIMEOUT the case did not finish (an operation that must not block is blocked)"
 	}
+}
+
+// panics raised inside worker goroutines of the current concurrent case
+var panicMsg atomic.Pointer[string]
+
+func catchPanic() {
+	if p := recover(); p != nil {
+		m := "PANIC " + strings.ReplaceAll(strings.ReplaceAll(fmt.Sprint(p), "\n", " "), "\t", " ")
+		panicMsg.CompareAndSwap(nil, &m)
+	}
+}
+
+func takePanic() string {
+	if m := panicMsg.Swap(nil); m != nil {
+		return *m
+	}
+	return ""
 }
 
 const valBase = 1000000
@@ -322,6 +348,7 @@ func stress(p, c, items, closeMode int, send func(int) bool, recv func() (int, b
 		pw.Add(1)
 		go func(i int) {
 			defer pw.Done()
+			defer catchPanic()
 			for j := 0; j < items; j++ {
 				if send(i*valBase + j) {
 					sentOK.Add(1)
@@ -335,6 +362,7 @@ func stress(p, c, items, closeMode int, send func(int) bool, recv func() (int, b
 		cw.Add(1)
 		go func(i int) {
 			defer cw.Done()
+			defer catchPanic()
 			for {
 				v, ok := recv()
 				if !ok {
@@ -380,6 +408,9 @@ func stress(p, c, items, closeMode int, send func(int) bool, recv func() (int, b
 		poisoned.Store(true)
 		return "TIMEOUT consumers did not terminate after Close"
 	}
+	if m := takePanic(); m != "" {
+		return m
+	}
 	var sb strings.Builder
 	for i := 0; i < p; i++ {
 		fmt.Fprintf(&sb, "p%d=%d:%s ", i, items, fmtInts(failed[i]))
@@ -415,7 +446,17 @@ func execAstress(f []string) string {
 		a.Close)
 }
 
-const stuckWait = 40 * time.Millisecond
+// a parked goroutine stays parked for good, so waiting longer only costs time on real violations
+const stuckWait = 500 * time.Millisecond
+
+func waitGroupTimeout(wg *sync.WaitGroup, d time.Duration) {
+	c := make(chan struct{})
+	go func() { wg.Wait(); close(c) }()
+	select {
+	case <-c:
+	case <-time.After(d):
+	}
+}
 
 func newWindow() *windowCtx {
 	return &windowCtx{Context: bg, at: make(chan struct{}, 1), release: make(chan struct{})}
@@ -439,9 +480,13 @@ func execWin(f []string) string {
 	q := mpmc.MustQueue[int](capacity, -1)
 	ws := make([]*windowCtx, nR)
 	res := make(chan int, nR)
+	var wg sync.WaitGroup
 	for i := range ws {
 		ws[i] = newWindow()
+		wg.Add(1)
 		go func(w *windowCtx) {
+			defer wg.Done()
+			defer catchPanic()
 			v, ok := q.Recv(w)
 			if ok {
 				res <- v
@@ -487,6 +532,10 @@ loop:
 	}
 	size := q.Size()
 	q.Close()
+	waitGroupTimeout(&wg, time.Second)
+	if m := takePanic(); m != "" {
+		return m
+	}
 	sort.Ints(got)
 	return fmt.Sprintf("ret=%d size=%d vals=%s", len(got), size, fmtInts(got))
 }
@@ -506,9 +555,11 @@ func execWinS(f []string) string {
 	}
 	ws := make([]*windowCtx, nS)
 	res := make(chan bool, nS)
+	var wg sync.WaitGroup
 	for i := range ws {
 		ws[i] = newWindow()
-		go func(i int, w *windowCtx) { res <- q.Send(w, 100+i) }(i, ws[i])
+		wg.Add(1)
+		go func(i int, w *windowCtx) { defer wg.Done(); defer catchPanic(); res <- q.Send(w, 100+i) }(i, ws[i])
 	}
 	if !waitAt(ws) {
 		poisoned.Store(true)
@@ -550,6 +601,10 @@ loop:
 	}
 	size := q.Size()
 	q.Close()
+	waitGroupTimeout(&wg, time.Second)
+	if m := takePanic(); m != "" {
+		return m
+	}
 	return fmt.Sprintf("ret=%d size=%d", got, size)
 }
 
@@ -558,42 +613,28 @@ func exec(line string, st *hx.Stats) string {
 	if len(f) == 0 {
 		return "badcase"
 	}
-	if poisoned.Load() && f[0] != "mq" && f[0] != "aq" {
+	scripted := f[0] == "mq" || f[0] == "aq"
+	if poisonedAll.Load() || (poisoned.Load() && !scripted) {
 		return "SKIPPED after a timeout in this run"
 	}
-	if poisonedAll.Load() {
-		return "SKIPPED after a timeout in this run"
+	var run func() string
+	switch {
+	case f[0] == "mq" && len(f) >= 3:
+		run = func() string { return execMq(f) }
+	case f[0] == "aq":
+		run = func() string { return execAq(f) }
+	case f[0] == "mstress" && len(f) == 7:
+		run = func() string { return execMstress(f) }
+	case f[0] == "astress" && len(f) == 4:
+		run = func() string { return execAstress(f) }
+	case f[0] == "win" && len(f) == 4:
+		run = func() string { return execWin(f) }
+	case f[0] == "winS" && len(f) == 4:
+		run = func() string { return execWinS(f) }
+	default:
+		return "badcase"
 	}
-	switch f[0] {
-	case "mq":
-		if len(f) < 3 {
-			return "badcase"
-		}
-		return guarded(func() string { return execMq(f) })
-	case "aq":
-		return guarded(func() string { return execAq(f) })
-	case "mstress":
-		if len(f) != 7 {
-			return "badcase"
-		}
-		return execMstress(f)
-	case "astress":
-		if len(f) != 4 {
-			return "badcase"
-		}
-		return execAstress(f)
-	case "win":
-		if len(f) != 4 {
-			return "badcase"
-		}
-		return execWin(f)
-	case "winS":
-		if len(f) != 4 {
-			return "badcase"
-		}
-		return execWinS(f)
-	}
-	return "badcase"
+	return guarded(scripted, run)
 }
 
 func main() { hx.Main(hx.Harness{Gen: gen, Exec: exec}) }
